@@ -108,6 +108,8 @@ class MiniEval:
                 continue
             if isinstance(st, ast.For) and not st.orelse:
                 it = self.ev(st.iter, env)
+                if isinstance(it, dict):
+                    it = list(it)  # keys in insertion order, as in Python
                 if not isinstance(it, (list, tuple)):
                     raise Unsupported(f"iteration over {it!r}")
                 broke = False
